@@ -162,6 +162,9 @@ func (w *World) ObserveEth(res *abci.ExecTxResult) (r EthResult) {
 	return
 }
 
+var requiredGas = map[string]uint64{"delegate": 300_000, "undelegate": 200_000, "redelegate": 500_000, "withdrawReward": 200_000,
+	"withdrawRewards": 400_000, "transfer": 800_000, "delegateByMsg": 600_000, "withdrawByMsg": 500_000}
+
 // Call is one twin step: who calls what.
 type Call struct {
 	Caller, Sender string
@@ -185,9 +188,11 @@ func (w *World) Step(out *trace.W, c *chain.Chain, preM trace.M, n int, call Cal
 	}
 	a := c.Clone()
 	b := c
-	gas := uint64(1_300_000)
-	if via == "twice" {
-		gas = 2_200_000
+	// gas limit: what the methods declare + room for the transaction and the forwarding contract (a failing call
+	// burns the whole limit)
+	gas := uint64(150_000)
+	for _, o := range call.Ops {
+		gas += requiredGas[o.M]
 	}
 	// route cpc
 	ethBz := w.EthTx(a, call.Sender, call.Caller, call.Ops, gas, price)
@@ -273,7 +278,7 @@ func (w *World) Genesis(out *trace.W, tid string) trace.M {
 	for i := 0; i < w.NEoa; i++ {
 		eoas = append(eoas, fmt.Sprintf("a%d", i))
 	}
-	out.Emit(trace.M{"ev": "Genesis", "tid": tid, "D": w.D, "V": w.V, "valOrder": w.ValOrder, "eoas": eoas, "ut": int64(20), "maxEntries": int64(3),
+	out.Emit(trace.M{"ev": "Genesis", "tid": tid, "D": w.D, "V": w.V, "valOrder": w.ValOrder, "iter": w.Iter, "eoas": eoas, "ut": w.O.UnbondingSecs, "maxEntries": int64(w.O.MaxEntries),
 		"minW": w.MinW, "decimals": int64(w.Decimals), "now": w.C.Height * chain.BlockSecs, "st": st})
 	return st
 }
@@ -341,6 +346,9 @@ func (g *Gen) Op(p pre, d string) Op {
 			r = 0
 		}
 	}
+	if total > 0 && r < 30 && g.R.Intn(2) == 0 {
+		r = 30 + g.R.Intn(30) // who has stake undelegates / redelegates more often
+	}
 	switch {
 	case r < 30 || (total == 0 && r < 60):
 		return Op{M: "delegate", V: g.val(), Amt: g.amt(20)}
@@ -350,6 +358,9 @@ func (g *Gen) Op(p pre, d string) Op {
 	case r < 60:
 		s := g.delegatedVal(p, d)
 		t := g.val()
+		if t == s && g.R.Intn(4) != 0 {
+			t = g.val()
+		}
 		return Op{M: "redelegate", Src: s, V: t, Amt: g.amt(p.deleg[d][s])}
 	case r < 70:
 		return Op{M: "withdrawReward", V: g.delegatedVal(p, d)}
